@@ -145,6 +145,8 @@ INCLUDE = {
     # YAML -> Interface: null suppresses, values recorded as configured (the loader half of "exactly the configured values")
     "C17": [("C19", "c19_radv_interface", ("`", "a configured", "an absent", "dns-search lifetime", "dns-servers lifetime", "an accepted hop-limit", "managed flag", "other flag", "reachable is", "retransmit is"))],
     # apply-range / apply-subnet / apply-address expand to exactly the documented address set
+    # the suffix lists the router selects from are what the loader produced from the file (C15's order independence starts there)
+    "C15": [("C19", "c19_dns_route", None)],
     "C02": [("C11", "c11_policy", ("a policy list applies exactly", "address pool =")), ("C19", "c19_dhcp_policy", ("apply-range hands out", "apply-subnet hands out", "apply-address hands out", "a policy with apply-range"))],
 }
 
@@ -361,6 +363,10 @@ def _run_property(pid, tier, seed, logdir):
                                   "address": "apply-address", "subnet": "apply-subnet <any address>/%d" % span,
                                   "routes": "apply-routes [{prefix: <any address>%s, next-hop: <any address>}]" % ("/%d" % span if span >= 0 else " (no /length)")}[kind]),
                              "Ok or Err, never a panic/overflow; apply-range = [start, end] both ends included; apply-subnet = every address strictly between network and broadcast; prefix lengths > 32 refused"))
+        for i, (sfx, kind) in enumerate(props_config.dns_route_cases(tier)):
+            jobs.append(cjob("c19_dns_route_suffixes_%d" % i, (lambda sfx=sfx, kind=kind: props_config.dns_route_obligation(prog, en, structs, sfx, kind)),
+                             "dns::config::parse_dns_route (+ parse_array, parse_string, Domain::from_str) from MIR on {domain-suffixes: %s, type: %s} (concrete text)" % (sfx, kind),
+                             "Ok(route) listing exactly the written suffixes in the written order, label by label, with the written type; never a panic"))
         by_parser = {}
         for fname, fam, plen in props_config.prefix_string_cases(tier):
             by_parser.setdefault((fname, fam), []).append(plen)
